@@ -117,26 +117,52 @@ func (r *replayer) run(jobs []*replayJob) error {
 	_ = list
 	// one test binary, one process per replay: package-level state of the
 	// library (and of a changed library) starts afresh for every replay, as it
-	// does for every path in the engine
-	bin := filepath.Join(r.dir, "replay.test")
-	bctx, bcancel := context.WithTimeout(context.Background(), 10*time.Minute)
-	defer bcancel()
-	bargs := []string{"test", "-c", "-o", bin, "-tags", "verif", "-vet=off", "-overlay", of}
-	if r.prop == "C11" {
-		bargs = append(bargs, "-race")
-	}
-	bargs = append(bargs, ".")
-	bcmd := exec.CommandContext(bctx, "go", bargs...)
-	bcmd.Dir = r.repo
-	bcmd.Env = goEnv()
-	if out, err := bcmd.CombinedOutput(); err != nil {
-		tail := string(out)
-		if len(tail) > 3000 {
-			tail = tail[len(tail)-3000:]
+	// does for every path in the engine.  Footprint findings (C11) are
+	// confirmed by a second binary built with the race detector; everything
+	// else runs without it (under -race sync.Pool drops items at random).
+	build := func(name string, race bool) (string, error) {
+		bin := filepath.Join(r.dir, name)
+		bctx, bcancel := context.WithTimeout(context.Background(), 10*time.Minute)
+		defer bcancel()
+		bargs := []string{"test", "-c", "-o", bin, "-tags", "verif", "-vet=off", "-overlay", of}
+		if race {
+			bargs = append(bargs, "-race")
 		}
-		return fmt.Errorf("building the replay binary failed (%v):\n%s", err, tail)
+		bargs = append(bargs, ".")
+		bcmd := exec.CommandContext(bctx, "go", bargs...)
+		bcmd.Dir = r.repo
+		bcmd.Env = goEnv()
+		if out, err := bcmd.CombinedOutput(); err != nil {
+			tail := string(out)
+			if len(tail) > 3000 {
+				tail = tail[len(tail)-3000:]
+			}
+			return "", fmt.Errorf("building the replay binary failed (%v):\n%s", err, tail)
+		}
+		return bin, nil
 	}
-	defer os.Remove(bin)
+	needsRace := func(j *replayJob) bool {
+		return r.prop == "C11" && strings.HasPrefix(j.viol.Tag, "no-unsynchronised-write-to-package-level-state")
+	}
+	var bin, raceBin string
+	for _, j := range jobs {
+		if needsRace(j) && raceBin == "" {
+			b, err := build("replay_race.test", true)
+			if err != nil {
+				return err
+			}
+			raceBin = b
+			defer os.Remove(b)
+		}
+		if !needsRace(j) && bin == "" {
+			b, err := build("replay.test", false)
+			if err != nil {
+				return err
+			}
+			bin = b
+			defer os.Remove(b)
+		}
+	}
 	sem := make(chan struct{}, 8)
 	var wg sync.WaitGroup
 	for i, j := range jobs {
@@ -149,7 +175,11 @@ func (r *replayer) run(jobs []*replayJob) error {
 			defer os.Remove(lf)
 			ctx, cancel := context.WithTimeout(context.Background(), 5*time.Minute)
 			defer cancel()
-			cmd := exec.CommandContext(ctx, bin, "-test.run", "^TestVerifReplay$", "-test.v", "-test.timeout", "4m")
+			exe := bin
+			if needsRace(j) {
+				exe = raceBin
+			}
+			cmd := exec.CommandContext(ctx, exe, "-test.run", "^TestVerifReplay$", "-test.v", "-test.timeout", "4m")
 			cmd.Dir = r.repo
 			cmd.Env = append(goEnv(), "VERIF_REPLAY_LIST="+lf)
 			out, _ := cmd.CombinedOutput()
